@@ -201,19 +201,34 @@ AD = CvrpAdapter()
 MODEL_NOTE = ("CVRPEnv modelled per instance over integer ticks (Rl4co/Env/Cvrp.lean); coordinates→distance "
               "arithmetic and float32 rounding are outside the model (exact-stream instances make them exact)")
 
+GEN_NOTE = ("`get_action_mask` and `_step` of CVRPEnv are additionally REGENERATED from the Python AST on every run "
+            "(harness/rowtrans.py → Rl4co/Generated/CvrpRow.lean: batched tensor statements translated operator by operator "
+            "into functions of one row); Rl4co/Props/C01/CvrpGenerated.lean proves them equal to the hand-written model under the "
+            "list representation of the state and lifts C01/C02/C05 to the regenerated environment; the driver runs the "
+            "regenerated environment next to the model and its trace is compared with the real env's as well")
+GEN_MODULES = ["Rl4co.Generated.CvrpRow", "Rl4co.Env.CvrpGen", "Rl4co.Props.C01.CvrpGenerated"]
+GEN_BRIDGE = [Theorem("Rl4co.Cvrp.Gen.mask_gen_eq", "proved", "obligation: the regenerated get_action_mask of a row IS the model's mask, action by action"),
+              Theorem("Rl4co.Cvrp.Gen.step_gen_eq", "proved", "obligation: the regenerated _step of a row IS the model's step (current node, load, visited, done)"),
+              Theorem("Rl4co.Cvrp.Gen.gen_run_sim", "proved", "every mask-confined run of the regenerated environment is a mask-confined run of the model (simulation)"),
+              Theorem("Rl4co.Cvrp.Gen.gen_run_of_run", "proved", "and conversely")]
+
 register(Unit("C01", "cvrp", lambda ctx: envcorr.check_feasibility(ctx, AD),
-              drivers=["drv_cvrp"], lean_modules=["Rl4co.Props.C01.CvrpParams", "Rl4co.Props.C01.Cvrp"],
+              drivers=["drv_cvrp"], lean_modules=["Rl4co.Props.C01.CvrpParams", "Rl4co.Props.C01.Cvrp"] + GEN_MODULES,
               theorems=[Theorem("Rl4co.Cvrp.params_match", "proved", "the source tokens hard-coded in the CVRP model (depot rule, load reset, checker clamp/tolerance) are what extract.py reads from the current source"),
                         Theorem("Rl4co.Cvrp.feasible_of_run", "proved",
-                                "every mask-confined finished CVRP episode is Spec-feasible (any n, any demands ≥ 0)")],
-              assumptions=[MODEL_NOTE]))
+                                "every mask-confined finished CVRP episode is Spec-feasible (any n, any demands ≥ 0)")] + GEN_BRIDGE + [
+                        Theorem("Rl4co.Cvrp.Gen.gen_feasible_of_run", "proved",
+                                "C01 for the environment REGENERATED from get_action_mask/_step: mask-confined finished episode ⇒ Spec-feasible")],
+              assumptions=[MODEL_NOTE, GEN_NOTE]))
 register(Unit("C02", "cvrp", lambda ctx: envcorr.check_termination(ctx, AD),
-              drivers=["drv_cvrp"], lean_modules=["Rl4co.Props.C01.CvrpParams", "Rl4co.Props.C02.Cvrp"],
+              drivers=["drv_cvrp"], lean_modules=["Rl4co.Props.C01.CvrpParams", "Rl4co.Props.C02.Cvrp"] + GEN_MODULES,
               theorems=[Theorem("Rl4co.Cvrp.params_match", "proved", "the source tokens hard-coded in the CVRP model (depot rule, load reset, checker clamp/tolerance) are what extract.py reads from the current source"),
                         Theorem("Rl4co.Cvrp.mask_nonempty", "proved", "every state offers an action"),
                         Theorem("Rl4co.Cvrp.done_stable", "proved", "done is absorbing under admitted steps"),
-                        Theorem("Rl4co.Cvrp.steps_le", "proved", "an unfinished mask-confined run has at most 2n+1 steps")],
-              assumptions=[MODEL_NOTE]))
+                        Theorem("Rl4co.Cvrp.steps_le", "proved", "an unfinished mask-confined run has at most 2n+1 steps")] + GEN_BRIDGE + [
+                        Theorem("Rl4co.Cvrp.Gen.gen_mask_nonempty", "proved", "C02 for the regenerated environment: every reachable state offers an action"),
+                        Theorem("Rl4co.Cvrp.Gen.gen_steps_le", "proved", "C02 for the regenerated environment: at most 2n+1 steps while unfinished")],
+              assumptions=[MODEL_NOTE, GEN_NOTE]))
 register(Unit("C03", "cvrp", lambda ctx: envcorr.check_reward(ctx, AD),
               drivers=["drv_cvrp"], lean_modules=["Rl4co.Props.C03.Cvrp"],
               theorems=[Theorem("Rl4co.Cvrp.reward_eq_objective", "proved",
@@ -226,7 +241,7 @@ register(Unit("C04", "cvrp", lambda ctx: envcorr.check_batch_independence(ctx, A
               assumptions=[MODEL_NOTE, "the batched code is compared row-wise against the per-instance model"]))
 if os.path.exists(os.path.join(LEAN_DIR, "Rl4co/Props/C05/Cvrp.lean")):
   register(Unit("C05", "cvrp", lambda ctx: envcorr.check_completeness(ctx, AD),
-              drivers=["drv_cvrp"], lean_modules=["Rl4co.Props.C01.CvrpParams", "Rl4co.Props.C05.Cvrp", "Rl4co.Props.C05.CvrpOpt"],
+              drivers=["drv_cvrp"], lean_modules=["Rl4co.Props.C01.CvrpParams", "Rl4co.Props.C05.Cvrp", "Rl4co.Props.C05.CvrpOpt"] + GEN_MODULES,
               theorems=[Theorem("Rl4co.Cvrp.params_match", "proved", "the source tokens hard-coded in the CVRP model (depot rule, load reset, checker clamp/tolerance) are what extract.py reads from the current source"),
                         Theorem("Rl4co.Cvrp.run_of_feasible", "proved",
                                 "every canonical Spec-feasible solution is a mask-confined finished run"),
@@ -235,8 +250,10 @@ if os.path.exists(os.path.join(LEAN_DIR, "Rl4co/Props/C05/Cvrp.lean")):
                         Theorem("Rl4co.Cvrp.opt_reachable", "proved",
                                 "rewards of finished mask-confined episodes = negated objectives of ALL feasible solutions"),
                         Theorem("Rl4co.Cvrp.best_reward_eq_optimum", "proved",
-                                "an optimal feasible solution's value is attained by a finished mask-confined episode and never exceeded")],
-              assumptions=[MODEL_NOTE]))
+                                "an optimal feasible solution's value is attained by a finished mask-confined episode and never exceeded")] + GEN_BRIDGE + [
+                        Theorem("Rl4co.Cvrp.Gen.gen_opt_reachable", "proved",
+                                "C05 for the regenerated environment: rewards of its finished mask-confined episodes = negated objectives of ALL feasible solutions")],
+              assumptions=[MODEL_NOTE, GEN_NOTE]))
   register(Unit("C05", "cvrp_float", float_fill_probe, drivers=[], lean_modules=[], theorems=[],
                 assumptions=["generic (float32) stream probe of the real CVRP mask at exact capacity fill with the generator's "
                              "non-dyadic normalisation; oracle = exact integer arithmetic; no theorem: float32 is outside the model"]))
